@@ -1,6 +1,9 @@
 import Tahoe.Uri.LemmasE2E
 /-! C16 — capabilities attenuate correctly (`uri.py` get_readonly / get_verify_cap / is_readonly /
-is_mutable, `from_string` alleged prefixes, `unknown.py`, `nodemaker.py` create_from_cap).
+is_mutable, `from_string` alleged prefixes, `unknown.py`, `nodemaker.py` create_from_cap with its node
+cache, and the ro-slot route through `dirnode.py` pack / `_unpack_contents` for both immutable directory
+flavours).  One open exception (known finding `ro-slot-unprefixed-writecap-in-unknownnode`) is carried
+explicitly as `roSlotException` and proved inhabited.
 
 All theorems hold for *every* `H : Hashes` (the three tagged hashes are uninterpreted functions),
 so a derived cap can depend on a stronger secret only through the hash the code applies to it.
